@@ -26,7 +26,7 @@ for p in ALL:
             "design_ref": "DESIGN.md section 4, " + p,
         },
         "level_note": "Decided: " + m.EXPLANATION + " Undecided: " + getattr(m, "UNDECIDED", "") + " Trusted: " + "; ".join(m.ASSUMPTIONS),
-        "technique": getattr(m, "TECHNIQUE", "static analysis: repository-specific syntax-tree rules (syn AST facts): " + ", ".join(sorted(set(o.rule for o in m.OBLIGATIONS)))),
+        "technique": getattr(m, "TECHNIQUE", "static analysis: repository-specific rules over syn syntax-tree facts (and rustc MIR facts where an obligation id is C14-E3, C13-V1, C13-P2, C11-D4); rule kinds used: " + ", ".join(sorted(set(r for o in m.OBLIGATIONS for r in o.rule.split("+")))) + ". R-EVAL = finite abstract interpretation of the function's syntax tree (opaque atoms / order types, mocked collaborators, whole abstract input space enumerated); R-EQUIV = normalised expression compared with a reference on a small integer domain; R-SYMX = symbolic straight-line effects. Nothing of bigtools is compiled or run."),
     })
 man = {
     "version": 1,
@@ -40,7 +40,7 @@ man = {
     },
     "engines": [
         {"name": "btverif", "path": "/verif/btverif", "serves_properties": [c["property_id"] for c in checks],
-         "kind_free_text": "static analysis: bt-ast (syn 2 syntax-tree facts with spans) + Python rule kinds R-LAYOUT, R-PRED (exhaustive order-type truth tables), R-FLOW, R-ORDER, R-SIB, R-STAT, R-TABLE, R-DISC, R-TERM, R-BOUND; fail-closed obligations with floors"},
+         "kind_free_text": "static analysis: bt-ast (syn 2 syntax-tree facts with spans) + bt-mir (rustc_private MIR facts: resolved callees, Result uses, overflow assertions) + Python rule kinds R-LAYOUT, R-PRED (exhaustive order-type truth tables), R-FLOW, R-ORDER, R-SIB, R-STAT, R-TABLE, R-DISC, R-TERM, R-BOUND, R-EQUIV (normal forms + small-domain expression equivalence), R-SYMX (symbolic straight-line effects), R-EVAL (finite abstract interpretation with mocked collaborators); obligations with floors; three outcomes per clause: holds / violation / undecided"},
     ],
     "checks": checks,
     "not_applicable": na,
